@@ -207,7 +207,7 @@ def run(model, rep, tier):
                          "e.g. ndots = 0 is silently treated as 1 and search-list candidates are tried before the absolute name", 3, "dns.resolver / dns.asyncresolver / dns.nameserver")
     from rules.c17 import check_lru_pairs
     check_lru_pairs(model, rep, "R-16.8")
-    rep.share(model, "C18", {"R-18.4", "R-18.6"}, "R-16.7", "_Resolution.query_result classifies exceptions: Timeout -> try again later, other OSError/FormError -> remove the server")
+    rep.share(model, "C18", {"R-18.1", "R-18.2", "R-18.4", "R-18.5", "R-18.6"}, "R-16.7", "_Resolution.query_result classifies exceptions: Timeout -> try again later, other OSError/FormError -> remove the server")
     rep.meta["explanation"] = (
         "Twin projection of the sync/async resolve loops, helper lookups and the five Nameserver classes (call arguments compared modulo `backend`), def-use/dominance rule for the lifetime budget, "
         "a cycle-must-pass-increment check for the CNAME chain, and set comparison of cache keys. The outcome for every fault sequence and the search-list rules are NOT decided.")
